@@ -75,6 +75,42 @@ def parseInterp (j : Json) : M Interp := do
   let l ← (← jArr j).toList.mapM parseIdBnd
   pure (Interp.ofList l)
 
+def optStr (j : Json) (k : String) : M (Option String) :=
+  match fldOpt j k with
+  | some v => do pure (some (← jStr v))
+  | none => pure none
+
+/-- default lists: ids (bare strings → boolean variables) or [id, lo, hi] triples -/
+def parseDflt (j : Json) : M (List (String × Bnd)) :=
+  match fldOpt j "default" with
+  | none => pure []
+  | some d => do
+      (← jArr d).toList.mapM (fun x => match x with
+        | .str s => pure (s, (⟨0, 1⟩ : Bnd))
+        | _ => parseIdBnd x)
+
+partial def parseAst (j : Json) : M Ast := do
+  let c ← fldStr j "c"
+  let args : M (List Ast) := do (← fldArr j "args").toList.mapM parseAst
+  match c with
+  | "var" => pure (.var (← fldStr j "id") ⟨← fldInt j "lo", ← fldInt j "hi"⟩)
+  | "str" => pure (.str (← fldStr j "id"))
+  | "AtLeast" =>
+      let sgn ← match fldOpt j "sign" with | some s => do pure (some (← jInt s)) | none => pure none
+      pure (.atLeast (← fldInt j "v") (← args) (← optStr j "id") sgn)
+  | "AtMost" => pure (.atMost (← fldInt j "v") (← args) (← optStr j "id"))
+  | "All" => pure (.all (← args) (← optStr j "id"))
+  | "Any" => pure (.any (← args) (← optStr j "id"))
+  | "Xor" => pure (.xor (← args) (← optStr j "id") false)
+  | "ExactlyOne" => pure (.xor (← args) (← optStr j "id") true)
+  | "XNor" => pure (.xnor (← args) (← optStr j "id"))
+  | "Imply" => pure (.imply (← parseAst (← fld j "cond")) (← parseAst (← fld j "cons")) (← optStr j "id"))
+  | "Not" => pure (.not (← parseAst (← fld j "arg")))
+  | "ccAny" => pure (.ccAny (← args) (← parseDflt j) (← optStr j "id"))
+  | "ccXor" => pure (.ccXor (← args) (← parseDflt j) (← optStr j "id"))
+  | "Stingy" => pure (.stingy (← args) (← optStr j "id"))
+  | _ => throw s!"bad ast class {c}"
+
 def rowJ (r : Row) : Json :=
   Json.mkObj [("b", ofInt r.b), ("c", Json.arr (r.coefs.map (fun (i, c) => Json.arr #[Json.str i, ofInt c])).toArray)]
 
@@ -92,6 +128,9 @@ def handle (j : Json) : M Json := do
       let ks ← (← fldArr j "kids").toList.mapM parseTree
       let s ← match fldOpt j "s" with | some s => do pure (some (← jInt s)) | none => pure none
       pure (Json.mkObj [("id", P.genId ks (← fldInt j "v") s)])
+  | "build" => do
+      let a ← parseAst (← fld j "ast")
+      pure (Json.mkObj [("t", treeJ a.build)])
   | "evalprops" => do
       let t ← parseTree (← fld j "t"); let I ← parseInterp (← fld j "I")
       pure (Json.mkObj [("res", Json.arr ((P.evalProps I t).map idBndJ).toArray)])
